@@ -183,7 +183,13 @@ func childMain(args []string) {
 		}
 		mu.Unlock()
 	}
-	counting := *mode == "rmw" || *mode == "fresh"
+	counting := *mode == "rmw" || *mode == "fresh" || *mode == "final"
+	// mode "final": like rmw, but every blind update reports a FINAL state (Succeeded): the record is and stays final while
+	// three or more parties keep updating it (ExtraData counters, runner-exit clean-up, late size reports do that to real units)
+	blindState := workceptor.WorkStateRunning
+	if *mode == "final" {
+		blindState = workceptor.WorkStateSucceeded
+	}
 	// mode "fresh": nobody has created the record; the first updates of all goroutines of all processes race on a
 	// status file that does not exist yet (the first one starts from its blank object, every other one must load)
 	// otherwise the record exists (the creator's Save has returned): a Load that fails now is a torn read
@@ -293,15 +299,15 @@ func childMain(args []string) {
 					detail := fmt.Sprintf("%s#%d", key, k)
 					if blinds%2 == 1 {
 						// the reporter object only ever sends this one report, like the runner's private status object
-						if e := steady.UpdateBasicStatus(statusFile, workceptor.WorkStateRunning, key+"#steady", -1); e != nil {
+						if e := steady.UpdateBasicStatus(statusFile, blindState, key+"#steady", -1); e != nil {
 							problem("C14:torn-read", fmt.Sprintf("%s: UpdateBasicStatus failed: %v", key, e))
 						}
 					} else if shared {
-						bwu.UpdateBasicStatus(workceptor.WorkStateRunning, detail, int64(k))
+						bwu.UpdateBasicStatus(blindState, detail, int64(k))
 						if e := bwu.LastUpdateError(); e != nil {
 							problem("C14:torn-read", fmt.Sprintf("%s: UpdateBasicStatus failed: %v", key, e))
 						}
-					} else if e := priv.UpdateBasicStatus(statusFile, workceptor.WorkStateRunning, detail, -1); e != nil {
+					} else if e := priv.UpdateBasicStatus(statusFile, blindState, detail, -1); e != nil {
 						problem("C14:torn-read", fmt.Sprintf("%s: UpdateBasicStatus failed: %v", key, e))
 					}
 					blinds++
@@ -524,7 +530,7 @@ func runConfig(res *Result, base string, name string, procs, gor, ops int, seed 
 	final := &workceptor.StatusFileData{}
 	if err := final.Load(statusPath); err != nil {
 		res.violate("C14:torn-load", fmt.Sprintf("[%s %s] final Load failed: %v", name, mode, err), map[string]any{"config": name, "mode": mode, "seed": seed})
-	} else if mode == "rmw" || mode == "fresh" {
+	} else if mode == "rmw" || mode == "fresh" || mode == "final" {
 		m, _ := final.ExtraData.(map[string]any)
 		c, _ := num(m["c"])
 		info.FinalCount = c
@@ -583,7 +589,7 @@ func runConfig(res *Result, base string, name string, procs, gor, ops int, seed 
 			info.Problems = append(info.Problems, "C14:update-skipped")
 		}
 	}
-	for _, p := range sftrace.Accept(ft, mode == "rmw" || mode == "fresh") {
+	for _, p := range sftrace.Accept(ft, mode == "rmw" || mode == "fresh" || mode == "final") {
 		res.violate(p.Sig, fmt.Sprintf("[%s %s] %s", name, mode, p.What), map[string]any{"config": name, "mode": mode, "seed": seed, "ops": ops, "jitter": jitter, "trace": tracePath, "at": p.At})
 		info.Problems = append(info.Problems, p.Sig)
 	}
@@ -666,7 +672,7 @@ func runMain(args []string) {
 		}
 		_ = lastEv
 		tmode := mode
-		if mode == "fresh" {
+		if mode == "fresh" || mode == "final" {
 			tmode = "rmw" // the counters are meaningful from the first update on
 		}
 		all = append(all, sftrace.Norm{Ev: "reset", H: tmode, Own: make([]int, *npmax)})
